@@ -14,7 +14,8 @@ pub fn run(ctx: &Ctx) -> i32 {
          of every shape x every exponent class; compensated extremes (1 0^n with exponent -n+k, 0.0^n d with exponent \
          n+k); uncompensable exponents (|e| >= 2^30, i32::MIN/MAX); shaped-random inputs with exponents at the i32 \
          extremes and at every early-out constant (-342/-343, 308/309, -65/-66, 38/39, +-0x1000); closest-approach \
-         inputs restricted to subnormal and top binades. Oracle: exact midpoint comparison with hi(0) and hi(MAX) \
+         inputs restricted to subnormal and top binades; interior points (G-I: (x + num/2^k) ulp for extreme floats and \
+         subnormals of every bit length, exact or cut to <= 19 / 20..50 digits). Oracle: exact midpoint comparison with hi(0) and hi(MAX) \
          thresholds; exponent arithmetic in i64. Non-trivial: result subnormal, MAX, inf or zero-by-underflow, or \
          |exponent| >= 1e5, or big-integer path; distinct by fingerprint.",
     );
@@ -22,7 +23,8 @@ pub fn run(ctx: &Ctx) -> i32 {
     let cases = ctx.cases(1_000_000, 50_000_000);
     let r = run_recipes(ctx.seed, cases, ctx.threads, 7, |r, stats| {
         let fmt = if r.sel[7] & 1 == 0 { Fmt::F64 } else { Fmt::F32 };
-        let c = match pick_w(r.sel[0], &[60, 15, 25]) {
+        let c = match pick_w(r.sel[0], &[60, 15, 25, 10]) {
+            3 => gen::g_i(fmt, r, true),
             0 => gen::g_f(fmt, r, lim),
             1 => {
                 let mut r2 = r.clone();
